@@ -18,7 +18,7 @@ pub fn config_for(r: &mut Rng, i: usize, cheap: bool) -> CircuitConfig {
         1 => c.zero_knowledge = true,
         2 => { c.num_routed_wires = *r.pick(&[28usize, 40, 50, 64]); }   // narrow routed part (PoseidonGate needs 135 wires)
         3 => { c.num_wires = 200; c.num_routed_wires = 120; }        // wide rows
-        4 => c.fri_config.reduction_strategy = FriReductionStrategy::Fixed(vec![1, 1, 1]),
+        4 => c.fri_config.reduction_strategy = FriReductionStrategy::Fixed(r.pick(&[vec![1usize, 1, 1], vec![3, 2, 1], vec![1, 2, 3], vec![2, 2, 1, 1], vec![1, 3]]).clone()),
         5 => { c.num_challenges = 3; c.fri_config.cap_height = 1; }
         _ => c.fri_config.reduction_strategy = FriReductionStrategy::MinSize(Some(3)),
     }
@@ -34,8 +34,16 @@ pub fn emit(e: &mut Emitter, seed: u64, thorough: bool) {
     let n_cases = if thorough { 120 } else { 16 };
     for i in 0..n_cases {
         let features = r.below(16);
-        let nops = if i % 5 == 0 { r.range(100, 300) } else { r.range(6, 70) } as usize;
-        let prog = gen_prog(&mut r, nops, features);
+        // mixed Fixed schedules need at least 2^6 rows: large programs with hashing for those cases
+        let nops = if i % 5 == 0 || i % 7 == 4 { r.range(100, 300) } else { r.range(6, 70) } as usize;
+        let features = if i % 7 == 4 { features | 2 } else { features };
+        let prog = if i % 8 == 3 {
+            // lookup-heavy: counts at exact multiples of the LookupGate slot count (and one off)
+            let n_tables = r.range(1, 3) as usize;
+            let slots = 40;
+            let counts: Vec<usize> = (0..n_tables).map(|t| [slots, 2 * slots, slots + 1, slots - 1][(i / 8 + t) % 4]).collect();
+            crate::c08::lookup_prog(&mut r, n_tables, &counts, 26)
+        } else { gen_prog(&mut r, nops, features) };
         let cheap = i % 3 != 0;
         let mut config = config_for(&mut r, i, cheap);
         // regression corpus of F-C01-1: Fixed schedules whose arities exceed the degree of a tiny circuit
